@@ -507,7 +507,7 @@ def pair_delete(repo, col, R):
     (positions), so row k of the values still belongs to index k."""
     fi = repo.method("Module", "delete_clamps")
     ex = idx.expander(repo, fi)
-    pops = [s for s in ex.stores if s.kind == "mcall" and s.key.name == "pop"]
+    pops = [s for s in ex.stores if (s.kind == "mcall" and s.key.name == "pop") or s.kind == "del"]   # `del d[k]` removes the key like d.pop(k)
     names = sorted(_reg_name(s.base) for s in pops)
     col.check(names == ["external_inds", "externals"], R, fi, "delete_clamps pops externals and external_inds together", str(names),
               f"popped registries: {names}", node=pops[0].node if pops else fi.node)
@@ -551,10 +551,19 @@ def delete_scope(repo, col, R):
                   f"the rows kept are `{m.short(90)}`: " + ("the inputs IN view are kept and all others are deleted" if not neg else "not the base's index list"), node=subs[0].node)
         col.check(by_kind, R, fi, "delete_clamps matches synaptic keys with the edges in view and all other keys with the compartments in view", "",
                   f"membership is tested against `{sel.short(90)}`", node=subs[0].node)
-    pops = [s_ for s_ in ex.stores if s_.kind == "mcall" and s_.key.name == "pop"]
+    pops = [s_ for s_ in ex.stores if (s_.kind == "mcall" and s_.key.name == "pop") or s_.kind == "del"]
     if pops:
         g = [x for x in pops[0].guards if x.op != "loop"]
         def nothing_left(c):
+            # `keep.sum() == 0`, `np.count_nonzero(keep) == 0`: the counting spellings of "nothing is kept"
+            if c.op == "cmp" and c.name == "==":
+                x_ = idx.none_true(c)
+                if x_ is not None:
+                    inv_, in_ = False, x_
+                    while (in_.op == "unary" and in_.name in ("Invert", "Not")) or (in_.op in ("call", "mcall") and in_.name == "logical_not"):
+                        inv_, in_ = not inv_, [a_ for a_ in in_.args if a_.op != "free"][0]
+                    if in_.key() == t.key():
+                        return inv_ == neg   # none of the keep mask is true
             n_ = False
             while c.op == "not" or (c.op == "unary" and c.name == "Not"):
                 n_, c = not n_, c.args[0]
